@@ -313,8 +313,8 @@ PROPS["C14"] = {
     "nontrivial": lambda f: f["pages"] >= 6 and f["we"] >= 1 and f["links"] >= 1,
     "deciding_counters": ["C14_windows", "C14_calls_succeeded", "C14_calls_refused_with_library_error", "C14_iterator_steps"],
     "anchors": ["LRUTrie.follow_lru", "LRUTrie.lru_node", "Traph.get_potential_prefix", "LRUTrieNode.write", "LRUTrie.add_lru"],
-    "quick": dict(cases=128, nops=(15, 30), points=2, time_cap=150, watchdog=1200, min_cases=16),
-    "thorough": dict(cases=4000, nops=(20, 40, 80), points=3, time_cap=900, watchdog=3000, min_cases=150),
+    "quick": dict(cases=128, nops=(15, 30), points=2, scale=2300, time_cap=150, watchdog=1200, min_cases=16),
+    "thorough": dict(cases=4000, nops=(20, 40, 80), points=3, scale=5200, time_cap=900, watchdog=3000, min_cases=150),
     "level": "exploration",
     "assumptions": ["the list of read-only methods is explicit (vt/battery.py); an unclassified public method makes the run inconclusive",
                     "a foreign (non-library) exception in a query is counted, not judged: the statement covers success and library errors"],
@@ -335,8 +335,8 @@ PROPS["C18"] = {
     "nontrivial": lambda f: f["pages"] >= 3,
     "deciding_counters": ["C18_cuts", "C18_cuts_opened", "C18_cuts_refused", "C18_cuts_consistent", "C18_reconstructions_validated"],
     "anchors": ["Traph.__init__", "FileStorage.check_for_corruption", "LRUTrieNode.write", "LinkStore.add_links", "LRUTrie.add_lru"],
-    "quick": dict(cases=48, nops=(5, 10, 16), byte_offsets=3, validate=1, time_cap=200, watchdog=1200, min_cases=8),
-    "thorough": dict(cases=400, nops=(5, 12, 20, 40), byte_offsets="all", validate=3, time_cap=1000, watchdog=3000, min_cases=60),
+    "quick": dict(cases=48, nops=(5, 10, 16), byte_offsets=3, validate=1, scale=1100, scale_cuts=30, time_cap=200, watchdog=1200, min_cases=8),
+    "thorough": dict(cases=400, nops=(5, 12, 20, 40), byte_offsets="all", validate=3, scale=2300, scale_cuts=300, time_cap=1000, watchdog=3000, min_cases=60),
     "level": "fault_enumeration",
     "level_text": "Exhaustive enumeration of crash points per recorded history (every logged write, every byte of every append) under the "
                   "statement's fault model; the histories themselves are sampled.",
@@ -359,9 +359,9 @@ PROPS["C16"] = {
     "deciding_counters": ["C16_schedules", "C16_final_state_checks", "C16_query_brackets", "C16_query_windows_with_state_change"],
     "anchors": ["Traph.index_batch_crawl_iter", "Traph.add_webentity_creation_rule_iter", "TraphIteratorState.should_yield",
                 "Traph.get_webentities_links_iter", "Traph.get_webentity_pages_iter", "LRUTrieNode.refresh"],
-    "quick": dict(programs=260, schedules_per_program=10, exhaustive_limit=400, exhaustive_share=0.1, max_sources=3, max_targets=3,
+    "quick": dict(programs=260, scale=1100, scale_schedules=6, scale_stride=2, schedules_per_program=10, exhaustive_limit=400, exhaustive_share=0.1, max_sources=3, max_targets=3,
                   time_cap=100, watchdog=1200, min_cases=250),
-    "thorough": dict(programs=3000, schedules_per_program=24, exhaustive_limit=20000, exhaustive_share=0.3, max_sources=3, max_targets=4,
+    "thorough": dict(programs=3000, scale=2300, scale_schedules=60, scale_stride=1, schedules_per_program=24, exhaustive_limit=20000, exhaustive_share=0.3, max_sources=3, max_targets=4,
                      time_cap=1000, watchdog=3000, min_cases=8000),
     "level": "exploration",
     "assumptions": ["schedules are explored at the forced yield points of the existing generator structure; preemptive threads are out of scope (the code has none)",
